@@ -625,7 +625,44 @@ def gen_types(seed, tier, start, quick=300, thorough=8000):
     return gen_cases.gen_types_cases(seed, quick if tier == "quick" else thorough, start)
 
 
+# ---------------------------------------------------------------- site properties (C01-C05, C11)
+def gen_sites(seed, tier, start, quick=500, thorough=12000):
+    cs = gen_cases.gen_site_cases(seed, quick if tier == "quick" else thorough, start)
+    return cs + gen_modules(seed, tier, start + len(cs), 120, 3000)
+
+
+def make_site_judge(pid, vkey=None):
+    def judge(case, side, res):
+        v = make_judge(None, vkey, whole=(vkey is None))(case, side, res)
+        if case.get("stream") != "site":
+            v["relevant"] = False
+            return v
+        if side.get("status") != "ok" or res is None or side.get("diags"):
+            v["relevant"] = False
+            return v
+        tags = [t for t in res.get("site", "1").split(",") if t not in ("1", "none", "")]
+        mine = [t for t in tags if t.startswith(pid + ":")]
+        known = [t for t in tags if t.startswith("known:" + pid + ":")]
+        if mine:
+            v["ok"] = False
+            v["oracle_why"] = "the source element and the real output disagree: " + ",".join(mine)
+        elif known:
+            v["ok"] = False
+            v["known"] = known[0].split(":")[2]
+            v["oracle_why"] = known[0]
+        return v
+    return judge
+
+
+SITE_TRUST = ["Spec/Site.v + Spec/SiteCheck.v are this check's independent reading of what a JSX element denotes (type, contributions to the props in order, directives, children / slots); it is compared with the REAL output of probe modules `const __site = <element>`",
+              "that the compared shapes evaluate as intended under JavaScript and Vue (object literal order, mergeProps, withDirectives, slot invocation) is argued in DESIGN.md, not proved"]
+
 PROPS = {
+    "C01": {"gen": gen_sites, "judge": make_site_judge("C01"), "trusted": SITE_TRUST, "assumptions": []},
+    "C03": {"gen": gen_sites, "judge": make_site_judge("C03"), "trusted": SITE_TRUST, "assumptions": []},
+    "C04": {"gen": gen_sites, "judge": make_site_judge("C04"), "trusted": SITE_TRUST, "assumptions": []},
+    "C05": {"gen": gen_sites, "judge": make_site_judge("C05"), "trusted": SITE_TRUST, "assumptions": []},
+    "C11": {"gen": gen_sites, "judge": make_site_judge("C11"), "trusted": SITE_TRUST, "assumptions": []},
     "C16": {"gen": gen_types, "judge": judge_c16, "trusted": ["the expected prop map is the one the generator encoded (ground truth independent of the model)"], "assumptions": []},
     "C17": {"gen": gen_types, "judge": judge_c17, "trusted": ["tools/props.py:vue_accepts is this check's reading of Vue's validateProp/assertType; the kinds of each atom type are the generator's table"], "assumptions": []},
     "C18": {"gen": gen_types, "judge": judge_c18, "trusted": ["Vue's resolvePropValue: a function default is called as a factory unless the prop's type is exactly Function"], "assumptions": []},
@@ -664,8 +701,8 @@ PROPS = {
         "assumptions": ["the `_`=2 rule for bound identifier children is covered by the correspondence (whole slot objects are in the view) and by C13_slot_hint_values; its full statement is not yet a theorem"],
     },
     "C02": {
-        "gen": lambda seed, tier, start: gen_modules(seed, tier, start),
-        "judge": judge_corr,
+        "gen": lambda seed, tier, start: gen_sites(seed, tier, start, 400, 10000),
+        "judge": make_site_judge("C02"),
         "extra": c02_text_extra,
         "trusted": ["Spec/JsxText.jsx_clean is the reading of 'the standard JSX rule' this check uses"],
         "assumptions": ["children part: whole-output correspondence + structural theorems about transform_children; Vue's createTextVNode is the runtime's"],
